@@ -630,7 +630,9 @@ def _serves_by_scan(an: Analysis, callee: Callee, queue: str, do: str):
                     name = ast.unparse(e.node.func.value)
                 else:
                     following = [s for s in events[stop:] if s.kind == 'store'
-                                 and s.get('value') is e.data.get('comprehension')]
+                                 and s.get('value') is not None
+                                 and rules.comprehension_of(s.get('value'))
+                                 is e.data.get('comprehension')]
                     name = following[0]['path'] if following else None
                 if collected not in (None, name):
                     return False, 'granted requests are collected in different lists'
